@@ -23,6 +23,7 @@ import (
 	"github.com/jech/storrent/peer"
 	"github.com/jech/storrent/tor"
 	"verifharness/fixture"
+	"verifharness/refwire"
 	"verifharness/swarm"
 	"verifharness/vk"
 )
@@ -232,6 +233,13 @@ func (m *model) check(pre map[uint32]bool) {
 				sw.Viol("C10", "requests", "entry-without-priority", fmt.Sprintf("piece %d has an entry without priorities although idle prefetch is off", p))
 				return
 			}
+			if m.complete(p) && pre[p] {
+				// the idle prefetcher's own entry: it wants the piece until it is verified, not beyond
+				// (the piece has been complete since before the previous cut; idle picks skip complete pieces)
+				sw.Viol("C10", "requests", "idle-entry-for-complete-piece", fmt.Sprintf("piece %d has been verified for two cuts and still has the idle prefetcher's entry (no priorities)", p))
+				return
+			}
+			sw.C.Count("idle_entries_seen", 1)
 			continue
 		}
 		if !m.readerMayHold(open, p) {
@@ -496,7 +504,19 @@ func exhaustive(t *testing.T, r *vk.Run, idx *int) {
 		d := map[string]any{"family": "exhaustive", "first": names(seqs[s]), "count": end - s}
 		c := r.Begin(i, d)
 		for _, seq := range seqs[s:end] {
-			for variant := 0; variant < 2; variant++ {
+			for variant := 0; variant < 3; variant++ {
+				if variant == 2 {
+					// only sequences that contain a request directly followed by a completion
+					has := false
+					for k := 0; k+1 < len(seq); k++ {
+						if (alphabet[seq[k]] == "reqA" || alphabet[seq[k]] == "reqB") && alphabet[seq[k+1]] == "complete" {
+							has = true
+						}
+					}
+					if !has {
+						continue
+					}
+				}
 				runSeq(t, c, seq, variant)
 				c.Count("exhaustive_orderings", 1)
 				if c.Violated() {
@@ -561,7 +581,26 @@ func runSeq(t *testing.T, c *vk.C, seq []int, variant int) {
 		}
 		for k := 0; k < len(seq); k++ {
 			pre := m.snapshotComplete()
-			if variant == 1 && k+1 < len(seq) && isCompletion(seq[k]) != isCompletion(seq[k+1]) {
+			if variant == 2 && k+1 < len(seq) && (alphabet[seq[k]] == "reqA" || alphabet[seq[k]] == "reqB") && alphabet[seq[k+1]] == "complete" && !m.complete(P) {
+				// crossing: the consumer has looked (piece incomplete) and its request is in the mailbox; the
+				// piece arrives and is verified before the loop gets to the request. The consumer is told
+				// "registered", so the registration must exist.
+				hold := make(chan *peer.TorStats)
+				m.tr.T.Event <- peer.TorGetStats{Ch: hold}
+				sw.Cut()
+				done := make(chan struct{})
+				a := seq[k]
+				go func() { defer close(done); do(a) }()
+				sw.Cut()
+				m.tr.Prefill([]int{P})
+				m.tr.T.Have(P, true)
+				m.sw.Act("p%d verified while the request waits in the mailbox", P)
+				m.stat("complete")
+				<-hold
+				<-done
+				k++
+				sw.C.Count("requests_crossing_completion", 1)
+			} else if variant == 1 && k+1 < len(seq) && isCompletion(seq[k]) != isCompletion(seq[k+1]) {
 				// simultaneous: the completion-side event from another goroutine
 				var wg sync.WaitGroup
 				a, b := seq[k], seq[k+1]
@@ -599,6 +638,12 @@ func randomHistory(t *testing.T, c *vk.C, rng *rand.Rand, i int) map[string]int 
 		m := newModel(sw, g)
 		st = m.stats
 		np := g.NumPieces()
+		if i%4 == 3 {
+			// something for the idle prefetcher to want: a peer that has everything and never unchokes
+			idler := m.tr.Connect(swarm.RemoteOpts{Fast: true, Ext: false})
+			idler.Send(refwire.Msg{Kind: refwire.KHaveAll})
+			idler.HonestAdvert = true
+		}
 		sw.Cut()
 		steps := 30 + rng.IntN(50)
 		type held struct {
